@@ -369,7 +369,9 @@ func (in rdInst) consume(m rdMode) rdUnit {
 		return u
 	}
 	u.Hdr = fmt.Sprintf("%+v", h)
-	if in.ms != nil {
+	if in.ms != nil && (h.OpCode == ws.OpText || h.OpCode == ws.OpBinary) {
+		// The extension object (not the Reader) keeps the flag, and by its
+		// documentation updates it on the first frame of data messages only.
 		u.Compressed = in.ms.IsCompressed()
 	}
 	read := func(limit int) bool {
